@@ -716,6 +716,7 @@ def judge(chk, c, r, m):
 # float stages: see float_stage.py-like functions below
 
 from props import c12_float  # noqa: E402
+from props import adv_grid  # noqa: E402
 
 
 COQ_IMPORTS = ('From Coq Require Import List ZArith QArith Qcanon. Import ListNotations. '
@@ -764,6 +765,8 @@ def run():
     proof = core.proof_stage('C12')
     warnings.simplefilter('ignore')
     t0 = time.time()
+    # grid-level entry points on distributed layouts (local-index glue, state between gridStep and gridStep_SplinesUnchanged)
+    adv_grid.stage(chk, ['pol', 'pol-impl'])
     cases, rng = gen_cases(chk)
     res = implrun.run_cases('props.c12', 'exact_case', cases, tmo=300.0, chunk=1)
     # second pass: feet exactly on the radial end points
@@ -853,6 +856,10 @@ def replay(path):
     core.setup_paths()
     body = json.load(open(path))
     rep = body['replay']
+    if rep.get('kind') == 'grid-entry':
+        ok, what = adv_grid.replay_case(rep['case'])
+        print('grid-level entry points vs single-process run:', what)
+        return 0 if ok else 1
     if rep.get('kind') in ('float', 'termination'):
         return c12_float.replay(rep)
     c = case_unreplay(rep['case'])
